@@ -115,6 +115,33 @@ func proExpect(s *sim, sid uint16, want []int, key string) {
 type proScen struct {
 	name string
 	fn   func(s *sim, il int)
+	opts func(o *simOpts)
+}
+
+// proCheckLifetime: wire view - at most one transmission of a chunk happens at or after firstTransmission + L (C06).
+func proCheckLifetime(s *sim, side int, sid uint16, lifetime time.Duration, key string) {
+	per := map[uint32][]time.Duration{}
+	for _, p := range s.wire {
+		if p.from != side || p.pkt == nil {
+			continue
+		}
+		for _, c := range p.pkt.chunks {
+			if d, ok := c.(*chunkPayloadData); ok && d.streamIdentifier == sid {
+				per[d.tsn] = append(per[d.tsn], p.at)
+			}
+		}
+	}
+	for tsn, ts := range per {
+		late := 0
+		for _, x := range ts[1:] {
+			if x-ts[0] >= lifetime {
+				late++
+			}
+		}
+		if late > 1 {
+			s.fail("C06", fmt.Sprintf("%d transmissions after the lifetime of %v expired (%s): side=%d tsn=%d sid=%d times=%v", late, lifetime, key, side, tsn, sid, ts))
+		}
+	}
 }
 
 func proScenarios() []proScen {
@@ -134,7 +161,7 @@ func proScenarios() []proScen {
 			_ = s.write(0, sid, 40, PayloadTypeWebRTCBinary)
 			_ = s.write(0, sid, 50, PayloadTypeWebRTCBinary)
 			proExpect(s, sid, []int{1, 2}, "forward-tsn-for-unknown-stream-lost")
-		}},
+		}, nil},
 		{"abandoned-first-message-unordered", func(s *sim, il int) {
 			st := s.openStream(0, sid)
 			st.SetReliabilityParams(true, ReliabilityTypeRexmit, 0)
@@ -143,7 +170,7 @@ func proScenarios() []proScen {
 			_ = s.write(0, sid, 40, PayloadTypeWebRTCBinary)
 			_ = s.write(0, sid, 20, PayloadTypeWebRTCDCEP)
 			proExpect(s, sid, []int{1, 2}, "forward-tsn-for-unknown-stream-lost")
-		}},
+		}, nil},
 		{"abandoned-message-partially-received", func(s *sim, il int) {
 			st := s.openStream(0, sid)
 			st.SetReliabilityParams(false, ReliabilityTypeRexmit, 0)
@@ -173,7 +200,7 @@ func proScenarios() []proScen {
 			s.runFaultFree(6*time.Second, 50*time.Millisecond, proIdle(s, 0))
 			_ = s.write(0, sid, 40, PayloadTypeWebRTCBinary)
 			proExpect(s, sid, []int{0, 2}, "later-message-lost-after-partial-abandon")
-		}},
+		}, nil},
 		{"abandoned-unordered-partially-received", func(s *sim, il int) {
 			st := s.openStream(0, sid)
 			st.SetReliabilityParams(true, ReliabilityTypeRexmit, 0)
@@ -193,7 +220,7 @@ func proScenarios() []proScen {
 			s.runFaultFree(6*time.Second, 50*time.Millisecond, proIdle(s, 0))
 			_ = s.write(0, sid, 40, PayloadTypeWebRTCBinary)
 			proExpect(s, sid, []int{0, 2}, "later-message-lost-after-partial-abandon")
-		}},
+		}, nil},
 		{"forward-tsn-lost-then-retransmitted", func(s *sim, il int) {
 			st := s.openStream(0, sid)
 			st.SetReliabilityParams(false, ReliabilityTypeRexmit, 0)
@@ -218,7 +245,7 @@ func proScenarios() []proScen {
 			// a duplicate of the FORWARD-TSN that finally gets through
 			s.runFaultFree(20*time.Second, 50*time.Millisecond, func() bool { return proHas(s, 1, sid, 2) })
 			proExpect(s, sid, []int{0, 2}, "later-message-lost-after-forward-tsn-loss")
-		}},
+		}, nil},
 		{"forward-tsn-duplicated", func(s *sim, il int) {
 			st := s.openStream(0, sid)
 			st.SetReliabilityParams(false, ReliabilityTypeRexmit, 0)
@@ -252,7 +279,7 @@ func proScenarios() []proScen {
 				s.deliver(0, 0, false)
 			}
 			proExpect(s, sid, []int{0, 2, 3}, "later-message-lost-after-duplicate-forward-tsn")
-		}},
+		}, nil},
 		{"runs-of-abandoned-messages", func(s *sim, il int) {
 			st := s.openStream(0, sid)
 			st.SetReliabilityParams(false, ReliabilityTypeRexmit, 0)
@@ -289,7 +316,7 @@ func proScenarios() []proScen {
 			if len(s.recvd[1][sid+1]) != 2 {
 				s.fail("C07", fmt.Sprintf("a reliable message on another stream was never delivered (reliable-message-lost): delivered %d of 2", len(s.recvd[1][sid+1])))
 			}
-		}},
+		}, nil},
 		{"ordered-unordered-dcep-on-one-stream", func(s *sim, il int) {
 			st := s.openStream(0, sid)
 			var want []int
@@ -319,7 +346,134 @@ func proScenarios() []proScen {
 			st.SetReliabilityParams(false, ReliabilityTypeRexmit, 0)
 			wr(35, PayloadTypeWebRTCBinary, false)
 			proExpect(s, sid, want, "live-message-lost-on-mixed-stream")
-		}},
+		}, nil},
+		{"lifetime-equals-first-rto", func(s *sim, il int) {
+			// the first T3 expiry comes exactly one lifetime after the first transmission: that retransmission is the
+			// one that abandons the message (elapsed >= lifetime), no further one follows
+			st := s.openStream(0, sid)
+			st.SetReliabilityParams(false, ReliabilityTypeReliable, 0)
+			_ = s.write(0, sid, 10, PayloadTypeWebRTCBinary)
+			s.runFaultFree(3*time.Second, 50*time.Millisecond, proIdle(s, 0))
+			st.SetReliabilityParams(false, ReliabilityTypeTimed, 1000)
+			_ = s.write(0, sid, 30, PayloadTypeWebRTCBinary)
+			proDropData(s, 0)
+			deadline := s.now() + 9*time.Second
+			for s.now() < deadline && s.assoc[0].BufferedAmount() != 0 {
+				s.advance(50 * time.Millisecond)
+				proDropData(s, 0)
+				for len(s.flight[1]) > 0 {
+					s.deliver(1, 0, false)
+				}
+				for len(s.flight[0]) > 0 {
+					s.deliver(0, 0, false)
+				}
+			}
+			proCheckLifetime(s, 0, sid, 1000*time.Millisecond, "lifetime-not-enforced")
+			_ = s.write(0, sid, 40, PayloadTypeWebRTCBinary)
+			proExpect(s, sid, []int{0, 2}, "later-message-lost-after-lifetime-expiry")
+		}, nil},
+		{"marked-chunk-fast-retransmitted-then-retransmitted", func(s *sim, il int) {
+			// D30: a chunk marked by T3 is held back by a tiny peer window (the FORWARD-TSN for the chunk in front of it is
+			// lost), three SACKs with gap blocks fast-retransmit it (the lifetime check abandons its message), and its
+			// retransmit flag, which the fast path leaves set, makes the next gather retransmit the abandoned chunk again
+			a := s.assoc[0]
+			st := s.openStream(0, sid)
+			st.SetReliabilityParams(true, ReliabilityTypeReliable, 0)
+			for k := 0; k < 3; k++ {
+				_ = s.write(0, sid, 1000, PayloadTypeWebRTCBinary)
+			}
+			s.runFaultFreeNoRead(2*time.Second, 50*time.Millisecond) // side 1 does not read: a_rwnd = 1000
+			st.SetReliabilityParams(true, ReliabilityTypeTimed, 300)
+			for k := 0; k < 6; k++ {
+				_ = s.write(0, sid, 150, PayloadTypeWebRTCBinary) // 900 bytes in flight: rwnd = 100 < one chunk
+			}
+			var held []*simPkt
+			for n := 0; len(s.flight[0]) > 0; n++ {
+				if n < 2 {
+					s.drop(0, 0) // the first two chunks are lost
+				} else {
+					held = append(held, s.flight[0][0]) // the other four are delayed
+					s.flight[0] = s.flight[0][1:]
+				}
+			}
+			t0 := s.now()
+			for s.now() < t0+1500*time.Millisecond && a.stats.getNumT3Timeouts() == 0 {
+				s.advance(50 * time.Millisecond)
+				proDropData(s, 0)
+				proDropFwd(s, 0)
+			}
+			a.lock.RLock()
+			first := a.cumulativeTSNAckPoint + 1
+			a.lock.RUnlock()
+			var firstFwd *simPkt
+			for _, p := range held {
+				s.flight[0] = append(s.flight[0], p)
+				s.deliver(0, len(s.flight[0])-1, false)
+				for len(s.flight[1]) > 0 {
+					s.deliver(1, 0, false)
+				}
+				proDropData(s, 0)
+				for i := 0; i < len(s.flight[0]); {
+					p := s.flight[0][i]
+					keep := false
+					if c, ok := proFwdOf(p); ok && firstFwd == nil {
+						switch v := c.(type) {
+						case *chunkForwardTSN:
+							keep = v.newCumulativeTSN == first
+						case *chunkIForwardTSN:
+							keep = v.newCumulativeTSN == first
+						}
+					}
+					if keep {
+						firstFwd = p // delayed, not lost
+						s.flight[0] = append(s.flight[0][:i:i], s.flight[0][i+1:]...)
+					} else {
+						i++
+					}
+				}
+				proDropFwd(s, 0)
+			}
+			if firstFwd != nil {
+				s.flight[0] = append(s.flight[0], firstFwd)
+				s.deliver(0, len(s.flight[0])-1, false)
+				for len(s.flight[1]) > 0 {
+					s.deliver(1, 0, false)
+				}
+			}
+			s.runFaultFree(5*time.Second, 50*time.Millisecond, proIdle(s, 0))
+			proCheckLifetime(s, 0, sid, 300*time.Millisecond, "lifetime-exceeded-abandoned-chunk-retransmitted")
+		}, func(o *simOpts) { o.recvBuf = 4000; o.ackMode = ackModeNoDelay }},
+		{"forward-tsn-names-more-new-streams-than-the-accept-queue-holds", func(s *sim, il int) {
+			// twenty streams whose first message is abandoned, skipped by ONE FORWARD-TSN: the receiver creates them as
+			// long as its accept queue (16) has room; the entries beyond that are dropped like a DATA chunk would be
+			// (recorded for the step-commuting check; no delivery expectation on the refused streams)
+			for i := 0; i < 20; i++ {
+				st := s.openStream(0, uint16(10+i))
+				st.SetReliabilityParams(false, ReliabilityTypeRexmit, 0)
+				_ = s.write(0, uint16(10+i), 20, PayloadTypeWebRTCBinary)
+			}
+			proDropData(s, 0)
+			// deliver without reading on side 1 (reading would drain the accept queue between the entries of later chunks)
+			s.runFaultFreeNoRead(6*time.Second, 50*time.Millisecond)
+			s.assoc[1].lock.RLock()
+			n := len(s.assoc[1].streams)
+			created := -1 // which entries are served first depends on Go's map iteration order in createForwardTSN
+			for i := 0; i < 20 && created < 0; i++ {
+				if _, ok := s.assoc[1].streams[uint16(10+i)]; ok {
+					created = 10 + i
+				}
+			}
+			s.assoc[1].lock.RUnlock()
+			if n > 16 {
+				s.fail("C07", fmt.Sprintf("%d streams created by FORWARD-TSN entries although the accept queue holds 16 (accept-queue-overrun)", n))
+			}
+			s.readAll()
+			// a stream that was created delivers its next message
+			if created >= 0 {
+				_ = s.write(0, uint16(created), 30, PayloadTypeWebRTCBinary)
+				proExpect(s, uint16(created), []int{1}, "forward-tsn-for-unknown-stream-lost")
+			}
+		}, nil},
 		{"dcep-survives-loss-on-unreliable-stream", func(s *sim, il int) {
 			st := s.openStream(0, sid)
 			st.SetReliabilityParams(true, ReliabilityTypeRexmit, 0)
@@ -327,7 +481,7 @@ func proScenarios() []proScen {
 			proDropData(s, 0) // the first transmission of the DCEP message is lost: it must be retransmitted
 			_ = s.write(0, sid, 26, PayloadTypeWebRTCBinary)
 			proExpect(s, sid, []int{0, 1}, "dcep-message-lost")
-		}},
+		}, nil},
 	}
 }
 
@@ -339,6 +493,9 @@ func proRunTargeted(t *testing.T, seed int64) (int, int) {
 			for _, tsn := range []uint32{1000, 4294967293} {
 				o := simOpts{seed: seed, interleaveA: il, interleaveB: il, setTSN: true, tsnA: tsn, tsnB: 2000}
 				sc := sc
+				if sc.opts != nil {
+					sc.opts(&o)
+				}
 				f := simScenario(t, fmt.Sprintf("pr-targeted/%s/il=%d/tsn=%d", sc.name, il, tsn), o, func(s *sim) { sc.fn(s, il) })
 				fails += len(f)
 				n++
